@@ -573,6 +573,24 @@ func sweepSingle(yield func(layoutCase) bool) {
 					if !yield(c) {
 						return
 					}
+					if vi == 0 && !emb {
+						// the same field between two sentinel bytes: the one that FOLLOWS it in the message is declared (and so
+						// written) before it, the one that precedes it after it - a field that writes or reads one byte too many
+						// in either direction destroys a sentinel
+						var fs []lField
+						if off+k.width < 64 {
+							fs = append(fs, lField{Kind: "u8", Off: off + k.width, Val: fv.FV{U: 0xff}})
+						}
+						fs = append(fs, f)
+						if off-1 >= 2 {
+							fs = append(fs, lField{Kind: "u8", Off: off - 1, Val: fv.FV{U: 0xff}})
+						}
+						c2 := c
+						c2.Fields = fs
+						if !yield(c2) {
+							return
+						}
+					}
 				}
 			}
 		}
